@@ -362,4 +362,9 @@ def jobs(tier, seed):
         for gi, grp in enumerate([items[i::5] for i in range(5)]):
             src = C.PRELUDE + "using S = B32;\n" + "\n".join(refs) + "\n" + "\n".join(s for s, _ in grp) + "\n"
             out.append(Job("C16_%s_%s_%d" % (an, bn, gi), src, [c for _, c in grp], flags=["-fno-exceptions"]))
+        if (an, bn) in (("uchar", "schar"), ("short", "llong")):
+            # configuration: RLBOX_ENABLE_DEBUG_ASSERTIONS must not change any result (sub-int operands, shifts included)
+            dbg = [(s_, dict(c, name=c["name"] + " [debug assertions]")) for s_, c in items if c["fn"] is check_binary and c["kw"]["op"] in ("shl", "shr", "add", "lt")]
+            src = C.PRELUDE + "using S = B32;\n" + "\n".join(refs) + "\n" + "\n".join(s_ for s_, _ in dbg) + "\n"
+            out.append(Job("C16_%s_%s_dbg" % (an, bn), src, [c for _, c in dbg], flags=["-fno-exceptions", "-DRLBOX_ENABLE_DEBUG_ASSERTIONS"]))
     return out
